@@ -433,3 +433,76 @@ func RawBodyMatrix() *m.Design {
 		Services: []*m.Service{{Name: "rawbodies", HasHTTP: true, Methods: []*m.Method{upload, download, pipe, plain}}},
 		Features: []string{"fixed-design:raw-body-matrix", "skip-request-body-encode-decode", "skip-response-body-encode-decode"}}
 }
+
+// StreamMatrix is a fixed design with the three streaming kinds over HTTP
+// (websocket): the payload travels in path, query and headers of the upgrade
+// request, the streamed messages are a string, an integer, an array, a user
+// type with nested collections, validations and a default, and a result type
+// rendered with a view chosen by the service (SetView).
+func StreamMatrix() *m.Design {
+	obj := func(fs ...*m.Field) *m.Attr { return &m.Attr{Type: &m.Type{Kind: m.Object, Fields: fs}} }
+	fld := func(n string, a *m.Attr, req bool) *m.Field { return &m.Field{Name: n, Attr: a, Required: req} }
+	str, i64 := func() *m.Attr { return m.Prim(m.String) }, func() *m.Attr { return m.Prim(m.Int64) }
+	arr := func(e *m.Attr) *m.Attr { return &m.Attr{Type: &m.Type{Kind: m.Array, Elem: e}} }
+	mp := func(k, v *m.Attr) *m.Attr { return &m.Attr{Type: &m.Type{Kind: m.Map, Key: k, Val: v}} }
+	fp := func(f float64) *float64 { return &f }
+	ip := func(i int) *int { return &i }
+	level := m.Prim(m.Int)
+	level.V = &m.Validation{Min: fp(0), Max: fp(9)}
+	name := str()
+	name.V = &m.Validation{MinLen: ip(1), MaxLen: ip(12)}
+	unit := str()
+	dv := value.Str("ms")
+	unit.Default = &dv
+	event := &m.UserType{Name: "Event", Var: "sevent",
+		Attr: obj(fld("seq", i64(), true), fld("name", name, true), fld("level", level, false), fld("unit", unit, false),
+			fld("tags", arr(str()), false), fld("counts", mp(str(), i64()), false),
+			fld("origin", obj(fld("host", str(), true), fld("port", m.Prim(m.Int), false)), false))}
+	sample := &m.UserType{Name: "Sample", Var: "ssample",
+		Attr: obj(fld("at", i64(), true), fld("value", m.Prim(m.Float64), true), fld("label", str(), false), fld("flags", arr(m.Prim(m.Boolean)), false))}
+	vf := func(names ...string) []m.ViewField {
+		var out []m.ViewField
+		for _, n := range names {
+			out = append(out, m.ViewField{Name: n})
+		}
+		return out
+	}
+	item := &m.UserType{Name: "Item", Var: "sitem", Result: true, Identifier: "application/vnd.streams.item",
+		Attr:  obj(fld("id", i64(), true), fld("title", str(), true), fld("notes", str(), false)),
+		Views: []*m.View{{Name: "default", Fields: vf("id", "title", "notes")}, {Name: "tiny", Fields: vf("id")}}}
+	get := func(path string) []m.Route { return []m.Route{{Verb: "GET", Path: path}} }
+	watch := &m.Method{Name: "watch", Streaming: "result",
+		Payload: obj(fld("id", str(), true), fld("since", i64(), false), fld("tag", str(), false)),
+		Result:  m.UserRef("Event"),
+		HTTP:    &m.HTTPEndpoint{Routes: get("/streams/{id}/watch"), Path: []m.Mapping{{Attr: "id"}}, Query: []m.Mapping{{Attr: "since"}}, Headers: []m.Mapping{{Attr: "tag", Wire: "X-Tag"}}}}
+	collect := &m.Method{Name: "collect", Streaming: "payload",
+		Payload:          obj(fld("id", str(), true), fld("mode", str(), false)),
+		StreamingPayload: m.UserRef("Sample"),
+		Result:           obj(fld("count", i64(), true), fld("last", str(), false)),
+		HTTP:             &m.HTTPEndpoint{Routes: get("/streams/{id}/collect"), Path: []m.Mapping{{Attr: "id"}}, Query: []m.Mapping{{Attr: "mode"}}}}
+	chat := &m.Method{Name: "chat", Streaming: "bidirectional",
+		Payload:          obj(fld("room", str(), true)),
+		StreamingPayload: str(),
+		Result:           str(),
+		HTTP:             &m.HTTPEndpoint{Routes: get("/streams/chat/{room}"), Path: []m.Mapping{{Attr: "room"}}}}
+	sums := &m.Method{Name: "sums", Streaming: "bidirectional",
+		StreamingPayload: arr(i64()),
+		Result:           i64(),
+		HTTP:             &m.HTTPEndpoint{Routes: get("/streams/sums")}}
+	relay := &m.Method{Name: "relay", Streaming: "bidirectional",
+		Payload:          obj(fld("key", str(), false)),
+		StreamingPayload: m.UserRef("Event"),
+		Result:           m.UserRef("Sample"),
+		HTTP:             &m.HTTPEndpoint{Routes: get("/streams/relay"), Headers: []m.Mapping{{Attr: "key", Wire: "X-Key"}}}}
+	items := &m.Method{Name: "items", Streaming: "result",
+		Payload: obj(fld("n", i64(), false)),
+		Result:  m.UserRef("Item"),
+		HTTP:    &m.HTTPEndpoint{Routes: get("/streams/items"), Query: []m.Mapping{{Attr: "n"}}}}
+	ticks := &m.Method{Name: "ticks", Streaming: "result", Result: i64(), HTTP: &m.HTTPEndpoint{Routes: get("/streams/ticks")}}
+	plain := &m.Method{Name: "plain", Payload: obj(fld("id", str(), true)), Result: obj(fld("ok", m.Prim(m.Boolean), true)),
+		HTTP: &m.HTTPEndpoint{Routes: get("/streams/{id}/plain"), Path: []m.Mapping{{Attr: "id"}}}}
+	return &m.Design{API: m.API{Name: "streams", Title: "Stream matrix"},
+		Types:    []*m.UserType{event, sample, item},
+		Services: []*m.Service{{Name: "streams", HasHTTP: true, Methods: []*m.Method{watch, collect, chat, sums, relay, items, ticks, plain}}},
+		Features: []string{"fixed-design:stream-matrix", "streaming-result", "streaming-payload", "streaming-bidirectional", "streamed-result-type-with-views"}}
+}
